@@ -33,6 +33,7 @@ pub struct SimCase {
 
 #[derive(Clone, Debug, PartialEq)]
 pub struct OutEv {
+    pub ev: TriggerEvent,
     pub t: i128, // ns relative to the trace start
     pub client: bool,
     pub kind: u64,
@@ -45,6 +46,7 @@ pub struct OutEv {
 pub struct SimRun {
     pub out: Result<Vec<OutEv>, String>,
     pub tape: Vec<u64>,
+    pub log: Vec<(u64, u64, u64)>,
     pub queue_pps: Option<usize>,
     /// queue contents as pushed: (relative time, client)
     pub queued: Vec<(i128, bool)>,
@@ -62,27 +64,29 @@ pub fn trace_string(c: &SimCase) -> String {
     c.trace.iter().map(|(t, cl)| format!("{},{}\n", t, if *cl { "s" } else { "r" })).collect()
 }
 
-/// max packets in any 100 ms window, times 10 (parse_trace_advanced)
-fn queue_pps(c: &SimCase) -> usize {
-    let mut best = 0usize;
-    for side in [true, false] {
-        let mut w: std::collections::VecDeque<u64> = Default::default();
-        for (t, cl) in &c.trace {
-            if *cl != side {
-                continue;
-            }
-            w.push_back(*t);
-            while let Some(&o) = w.front() {
-                if t.saturating_sub(o) > 100_000_000 {
-                    w.pop_front();
-                } else {
-                    break;
-                }
-            }
-            best = best.max(w.len());
+fn build_queue(c: &SimCase, network: Network) -> (SimQueue, Instant, Option<usize>, Vec<(i128, bool)>) {
+    // relative times of the queued base events
+    let queued: Vec<(i128, bool)> = c
+        .trace
+        .iter()
+        .map(|(t, cl)| (if *cl { *t as i128 } else { *t as i128 - c.delay_ns as i128 }, *cl))
+        .collect();
+    let minrel = queued.iter().map(|x| x.0).min().unwrap();
+    if c.via_parse {
+        let sq = parse_trace(&trace_string(c), network);
+        let first = sq.get_first_time().unwrap();
+        let base = if minrel >= 0 { first - Duration::from_nanos(minrel as u64) } else { first + Duration::from_nanos((-minrel) as u64) };
+        let p = sq.verif_max_pps();
+        (sq, base, p, queued)
+    } else {
+        let base = Instant::now() + Duration::from_secs(3600);
+        let mut sq = SimQueue::new();
+        for (t, cl) in &queued {
+            let at = if *t >= 0 { base + Duration::from_nanos(*t as u64) } else { base - Duration::from_nanos((-*t) as u64) };
+            sq.push(TriggerEvent::NormalSent, *cl, false, at, Duration::from_nanos(0));
         }
+        (sq, base, None, queued)
     }
-    best * 10
 }
 
 pub fn run_sim(c: &SimCase) -> SimRun {
@@ -96,30 +100,14 @@ pub fn run_sim(c: &SimCase) -> SimRun {
     args.max_padding_frac_server = c.fr[2];
     args.max_blocking_frac_server = c.fr[3];
     args.insecure_rng_seed = Some(c.seed);
-    // relative times of the queued base events
-    let queued: Vec<(i128, bool)> = c
-        .trace
-        .iter()
-        .map(|(t, cl)| (if *cl { *t as i128 } else { *t as i128 - c.delay_ns as i128 }, *cl))
-        .collect();
-    let minrel = queued.iter().map(|x| x.0).min().unwrap();
-    let (mut sq, base, qpps): (SimQueue, Instant, Option<usize>) = if c.via_parse {
-        let sq = parse_trace(&trace_string(c), network);
-        let first = sq.get_first_time().unwrap();
-        let base = if minrel >= 0 { first - Duration::from_nanos(minrel as u64) } else { first + Duration::from_nanos((-minrel) as u64) };
-        (sq, base, Some(queue_pps(c)))
-    } else {
-        let base = Instant::now() + Duration::from_secs(3600);
-        let mut sq = SimQueue::new();
-        for (t, cl) in &queued {
-            let at = if *t >= 0 { base + Duration::from_nanos(*t as u64) } else { base - Duration::from_nanos((-*t) as u64) };
-            sq.push(TriggerEvent::NormalSent, *cl, false, at, Duration::from_nanos(0));
-        }
-        (sq, base, None)
+    let built = catch_unwind(AssertUnwindSafe(|| build_queue(c, network)));
+    let (mut sq, base, qpps, queued) = match built {
+        Ok(x) => x,
+        Err(e) => return SimRun { out: Err(crate::fw::panic_msg(e)), tape: vec![], log: vec![], queue_pps: None, queued: vec![] },
     };
     verif::arm(0);
     let res = catch_unwind(AssertUnwindSafe(|| sim_advanced(&c.mc, &c.ms, &mut sq, &args)));
-    let (tp, _, _) = verif::take();
+    let (tp, lg, _) = verif::take();
     verif::disarm();
     let tape: Vec<u64> = tp
         .iter()
@@ -129,14 +117,26 @@ pub fn run_sim(c: &SimCase) -> SimRun {
         Err(e) => Err(crate::fw::panic_msg(e)),
         Ok(tr) => Ok(tr.iter().map(|e| out_ev(e, base)).collect()),
     };
-    SimRun { out, tape, queue_pps: qpps, queued }
+    SimRun { out, tape, log: lg, queue_pps: qpps, queued }
+}
+
+/// the plain entry point sim() (no machines expected: thread RNG)
+pub fn run_sim_plain(c: &SimCase) -> SimRun {
+    let network = Network::new(Duration::from_nanos(c.delay_ns), None);
+    let (mut sq, base, qpps, queued) = build_queue(c, network);
+    let res = catch_unwind(AssertUnwindSafe(|| maybenot_simulator::sim(&c.mc, &c.ms, &mut sq, Duration::from_nanos(c.delay_ns), c.max_trace, c.only_network)));
+    let out = match res {
+        Err(e) => Err(crate::fw::panic_msg(e)),
+        Ok(tr) => Ok(tr.iter().map(|e| out_ev(e, base)).collect()),
+    };
+    SimRun { out, tape: vec![], log: vec![], queue_pps: qpps, queued }
 }
 
 pub fn out_ev(e: &SimEvent, base: Instant) -> OutEv {
     let mut t = vec![];
     enc_event(&e.event, &mut t);
     let (bypass, replace) = e.verif_flags();
-    OutEv { t: rel(e.time, base), client: e.client, kind: t[0], machine: t[1], pad: e.contains_padding, bypass, replace }
+    OutEv { ev: e.event.clone(), t: rel(e.time, base), client: e.client, kind: t[0], machine: t[1], pad: e.contains_padding, bypass, replace }
 }
 
 pub fn enc_sim_case(c: &SimCase, run: &SimRun) -> Toks {
@@ -161,17 +161,12 @@ pub fn enc_sim_case(c: &SimCase, run: &SimRun) -> Toks {
             o.push(p as u64)
         }
     }
-    match run.queue_pps {
-        None => o.push(0),
-        Some(p) => {
-            o.push(1);
-            o.push(p as u64)
-        }
-    }
+    o.push(c.via_parse as u64);
     o.extend_from_slice(&[c.max_trace as u64, c.max_iter as u64, c.cont as u64, c.only_client as u64, c.only_network as u64]);
-    o.push(run.queued.len() as u64);
-    for (t, cl) in &run.queued {
-        o.push((*t + BIAS) as u64);
+    // the trace lines in file order: (time, is_send)
+    o.push(c.trace.len() as u64);
+    for (t, cl) in &c.trace {
+        o.push((*t as i128 + BIAS) as u64);
         o.push(*cl as u64);
     }
     o.push(run.tape.len() as u64);
@@ -180,6 +175,15 @@ pub fn enc_sim_case(c: &SimCase, run: &SimRun) -> Toks {
 }
 
 pub fn out_lines(run: &SimRun) -> Vec<Toks> {
+    let mut hdr: Vec<Toks> = vec![];
+    if let Some(p) = run.queue_pps {
+        hdr.push(vec![2, p as u64]);
+    }
+    hdr.extend(out_body(run));
+    hdr
+}
+
+fn out_body(run: &SimRun) -> Vec<Toks> {
     match &run.out {
         Err(m) => vec![vec![1, if m.contains("BUG") { 10 } else if m.contains("divide by zero") { 8 } else { crate::fw::panic_kind(m) }]],
         Ok(tr) => {
@@ -201,8 +205,24 @@ pub fn gen_sim_case(prop: &str, r: &mut SplitMix64) -> SimCase {
     let no_machines = prop == "C14";
     let nc = if no_machines { 0 } else { r.range(0, 2) as usize };
     let ns = if no_machines { 0 } else { r.range(0, 2) as usize };
-    let mc: Vec<Machine> = (0..nc).map(|_| gen_machine(r, &mp)).collect();
-    let ms: Vec<Machine> = (0..ns).map(|_| gen_machine(r, &mp)).collect();
+    let mut mc: Vec<Machine> = (0..nc).map(|_| gen_machine(r, &mp)).collect();
+    let mut ms: Vec<Machine> = (0..ns).map(|_| gen_machine(r, &mp)).collect();
+    // directed part: role machines whose timers collide and overlap
+    if !no_machines && r.chance(1, 2) {
+        let roles: &[(Role, Option<bool>)] = match prop {
+            "C16" => &[(Role::Blocker, Some(false)), (Role::Blocker, Some(true)), (Role::Padder, Some(true)), (Role::Padder, None)],
+            "C17" => &[(Role::Blocker, None), (Role::Padder, None), (Role::Padder, None), (Role::Canceller, None)],
+            "C18" => &[(Role::Timer, None), (Role::Timer, None), (Role::Canceller, None), (Role::Padder, None)],
+            _ => &[(Role::Blocker, None), (Role::Padder, None), (Role::Timer, None), (Role::Canceller, None)],
+        };
+        let side = if r.chance(2, 3) { &mut mc } else { &mut ms };
+        side.clear();
+        let k = r.range(2, 4) as usize;
+        for i in 0..k {
+            let (role, by) = roles[i % roles.len()];
+            side.push(gen_role_machine(r, role, by));
+        }
+    }
     let n = r.range(1, 40) as usize;
     let mut t = *r.pick(&[0u64, 0, 1000, 1_000_000]);
     let mut trace = vec![];
